@@ -769,6 +769,7 @@ CL_PAIRED = [
 ]
 _N.append(Nest("param_array_bound", "D", "E", "f(int a[@])", 1, 1))
 PAIR_NAMES = [c.name for c in _N] + CL_PAIRED
+PAIR_NAMES_QUICK = [c.name for c in _N] + CL_PAIRED[:1] + CL_PAIRED[3:6] + CL_PAIRED[8:]
 _N.extend(_CL)
 NESTABLE = {c.name: c for c in _N}
 assert len(NESTABLE) == len(_N)
@@ -1075,16 +1076,24 @@ def parse_time(text, repeat=3, warm_limit=120.0, run_limit=20.0):
 
     tune_malloc()
 
+    import gc
+
     def once():
         p = CParser()
-        t0 = time.perf_counter()
-        c0 = time.process_time()
+        gc_was = gc.isenabled()
+        gc.disable()  # collector passes over a growing AST are not parser work
         try:
-            p.parse(text)
-            ok = 1
-        except ParseError:
-            ok = 0
-        return min(time.perf_counter() - t0, time.process_time() - c0), ok
+            t0 = time.perf_counter()
+            c0 = time.process_time()
+            try:
+                p.parse(text)
+                ok = 1
+            except ParseError:
+                ok = 0
+            return min(time.perf_counter() - t0, time.process_time() - c0), ok
+        finally:
+            if gc_was:
+                gc.enable()
 
     old = signal.signal(signal.SIGALRM, _alarm)
     try:
@@ -1122,6 +1131,12 @@ def parse_time(text, repeat=3, warm_limit=120.0, run_limit=20.0):
 # (string slicing is invisible to call counts).
 # ---------------------------------------------------------------------------
 DIRECTIVE_TIME_SIZES = (1 << 13, 1 << 15, 1 << 17, 1 << 19)
+# through parse() the AST of half a megabyte of declarations is hundreds of MB
+# of small objects whose pages are first touched in every run - on a loaded VM
+# that costs more, and less predictably, than the parse itself; parse() is
+# timed up to 2^17, the lexer (no AST) up to 2^19, and the deterministic
+# copied-characters counter covers what timing at this size would blur
+DIRECTIVE_PARSE_TIME_SIZES = (1 << 11, 1 << 13, 1 << 15, 1 << 17)
 DIRECTIVE_COPY_SIZES = (1 << 11, 1 << 12, 1 << 13, 1 << 14, 1 << 15)
 
 
